@@ -569,6 +569,23 @@ func (e *Effects) callResultRoots(fe *fnEffects, c *ssa.Call, idx int) RootSet {
 							ar = ar.elemOf()
 						}
 						out.addAll(ar)
+						// The callee says only "derived from parameter k": the value may be the
+						// argument itself or something loaded through it.  When the argument is
+						// (the address of) a local copy, what is loaded through it is what the copy
+						// holds - memory shared with the original (config() on a spilled value
+						// receiver returns the shared *nodeConfig).  Keep both possibilities.
+						for q := range ar {
+							if q.Kind == 'f' {
+								if cset, ok := fe.contents[q.Name]; ok {
+									for cr := range cset {
+										if r.Elem {
+											cr.Elem = true
+										}
+										out[cr] = true
+									}
+								}
+							}
+						}
 					}
 				case 'f':
 					// fresh in callee: fresh here, identified by the call
@@ -716,6 +733,26 @@ func shallowAddr(addr ssa.Value) bool {
 				return false
 			}
 			addr = a.X
+		default:
+			return false
+		}
+	}
+}
+
+// isLocalAddr: v is the address of a local allocation or of a field / array
+// element inside one (no load, call or conversion in between).
+func isLocalAddr(v ssa.Value) bool {
+	for {
+		switch a := v.(type) {
+		case *ssa.Alloc:
+			return true
+		case *ssa.FieldAddr:
+			v = a.X
+		case *ssa.IndexAddr:
+			if _, isPtr := a.X.Type().Underlying().(*types.Pointer); !isPtr {
+				return false
+			}
+			v = a.X
 		default:
 			return false
 		}
@@ -903,6 +940,24 @@ func (e *Effects) instantiate(fe *fnEffects, c *ssa.CallCommon, ce *fnEffects, w
 		if w.Shallow && !w.Root.Elem {
 			for _, r := range nonFresh(e.rootsOf(fe, arg)) {
 				out = append(out, Write{Loc: loc, Root: r, Shallow: shallowAddr(arg)})
+			}
+			// The callee writes the cell its pointer argument points at.  That is a write to a
+			// local copy only when the argument IS the address of (a part of) a local allocation.
+			// A pointer merely derived from a local copy - returned by a call on it, loaded out
+			// of it (config() on a spilled value receiver yields the shared *nodeConfig) - points
+			// into whatever the copy shares with its original: one level down, i.e. shared memory.
+			if !isLocalAddr(arg) {
+				for _, r := range e.expandFresh(fe, e.rootsOf(fe, arg)) {
+					dup := false
+					for _, o := range out {
+						if o.Root == r && o.Loc == loc {
+							dup = true
+						}
+					}
+					if !dup {
+						out = append(out, Write{Loc: loc, Root: r})
+					}
+				}
 			}
 			return out
 		}
